@@ -128,7 +128,7 @@ def kind_of(name):
 
 
 class RecStrategy:
-    """stands for a Hypothesis strategy: records which hook was applied with which combinator, in order"""
+    """stands for a Hypothesis strategy: records the callables handed to the combinators, in order"""
 
     def __init__(self, log=()):
         self.log = tuple(log)
@@ -146,55 +146,118 @@ class RecStrategy:
         return self._rec("flatmap", f)
 
 
+class Tok(tuple):
+    """the value pushed through a recorded pipeline: the `map` / `flatmap` hooks it went through, in order"""
+
+
+class RecJust:
+    """what a `flatmap` hook returns for a `Tok`: stands for `st.just(value)`"""
+
+    def __init__(self, value):
+        self.value = value
+
+
+def op_index(context):
+    """which of the 4 operations a HookContext is about (by path and method, not by object identity)"""
+    operation = getattr(context, "operation", None)
+    if operation is None:
+        return None
+    key = (operation.path, operation.method.upper())
+    return OPS.index(key) if key in OPS else f"other:{key}"
+
+
 def make_hook(h, name, calls):
-    """a hook function whose `__name__` is `name`, of the arity the hook specification wants"""
+    """a hook function whose `__name__` is `name`, of the arity the hook specification wants; every call is recorded
+    as (hook, operation of the context it was given, value it was given)"""
     if name == UNFILTERABLE:
         def fn(context, path, methods):
-            calls.append(h)
+            calls.append((h, op_index(context), None))
     elif name.startswith("before_generate_"):
         def fn(context, strategy):
-            calls.append(h)
+            calls.append((h, op_index(context), None))
             if isinstance(strategy, RecStrategy):
                 return strategy._rec("before_generate", fn)
             return strategy
     elif name.startswith("filter_"):
         def fn(context, value):
-            calls.append(h)
+            calls.append((h, op_index(context), value))
             return True
     elif name.startswith("flatmap_"):
         def fn(context, value):
             from hypothesis import strategies as st
 
-            calls.append(h)
+            calls.append((h, op_index(context), value))
+            if isinstance(value, Tok):
+                return RecJust(Tok(value + (h,)))
             return st.just(value)
     elif name.startswith("map_"):
         def fn(context, value):
-            calls.append(h)
+            calls.append((h, op_index(context), value))
+            if isinstance(value, Tok):
+                return Tok(value + (h,))
             return value
     else:
         def fn(context, value):
-            calls.append(h)
+            calls.append((h, op_index(context), None))
     fn.__name__ = name
     fn.__qualname__ = name
     fn._verif_id = h
     return fn
 
 
+def exec_log(log, calls, build_calls, names):
+    """Do what Hypothesis does when it draws from the strategy the code under test built: call the recorded callables
+    in order, threading the value.  Which hook a stage stands for is OBSERVED (the hook functions record their own
+    calls), never read off the callable — `partial`, a lambda, a nested function or one composed callable are all the
+    same to this function.  Returns the hooks applied in order, and the build-time / draw-time calls with the
+    operation of the context and the value each one received."""
+    build = [[kind_of(names[h]), h, o] for h, o, _ in build_calls]
+    value = Tok()
+    applied, trace = [], []
+    for action, f in log:
+        if action == "before_generate":
+            applied.append([action, f._verif_id])  # recorded by the hook itself when the code under test called it
+            continue
+        del calls[:]
+        try:
+            out, err = f(value), None
+        except Exception as e:  # the closure itself is broken: an observation, not an infrastructure problem
+            out, err = None, f"raised:{type(e).__name__}"
+        ran = list(calls)
+        for h, o, v in ran:
+            applied.append([action, h])
+            trace.append([action, h, o, list(v) if isinstance(v, Tok) else f"not-the-drawn-value:{type(v).__name__}"])
+        if err is not None or not ran:
+            applied.append([action, err or "no-hook-called"])
+            trace.append([action, err or "no-hook-called", None, list(value)])
+            continue
+        if action == "filter":
+            if not out:
+                trace.append([action, "rejected", None, list(value)])
+        elif action == "map":
+            if isinstance(out, Tok):
+                value = out
+            else:
+                trace.append([action, f"returned:{type(out).__name__}", None, list(value)])
+        elif action == "flatmap":
+            if isinstance(out, RecJust) and isinstance(out.value, Tok):
+                value = out.value
+            else:
+                trace.append([action, f"returned:{type(out).__name__}", None, list(value)])
+    del calls[:]
+    return {"applied": applied, "draw": {"build": build, "calls": trace, "value": list(value)}}
+
+
 @contextlib.contextmanager
 def global_dispatcher(d0):
-    old = (sh.GLOBAL_HOOK_DISPATCHER, ss.GLOBAL_HOOK_DISPATCHER)
+    old = (sh.GLOBAL_HOOK_DISPATCHER, ss.GLOBAL_HOOK_DISPATCHER, sh.dispatch, ss.dispatch)
     sh.GLOBAL_HOOK_DISPATCHER = d0
     ss.GLOBAL_HOOK_DISPATCHER = d0
+    sh.dispatch = ss.dispatch = d0.dispatch  # the module-level alias `dispatch = GLOBAL_HOOK_DISPATCHER.dispatch`
     try:
         yield
     finally:
-        sh.GLOBAL_HOOK_DISPATCHER, ss.GLOBAL_HOOK_DISPATCHER = old
-
-
-def hook_of(f):
-    while isinstance(f, partial):
-        f = f.func
-    return f._verif_id
+        sh.GLOBAL_HOOK_DISPATCHER, ss.GLOBAL_HOOK_DISPATCHER, sh.dispatch, ss.dispatch = old
 
 
 def run_impl(world: World, hist, e2e=False):
@@ -212,7 +275,25 @@ def run_impl(world: World, hist, e2e=False):
 
     d2 = HookDispatcher.add_dispatcher(test_func)
     disps = [d0, d1, d2]
-    machines = [d0.register, d1.register, schema.hook, d2.register]
+    bound = []  # the schema bound to the test function (`parametrize` → `clone(test_function=…)`), made on first use
+
+    def bound_schema():
+        if not bound:
+            bound.append(schema.clone(test_function=test_func))
+            if bound[0].hooks is not d1 or bound[0].get_local_hook_dispatcher() is not d2:
+                raise InfraError("a cloned schema does not share the schema dispatcher / find the test's dispatcher")
+        return bound[0]
+
+    class Machines:
+        """the four `register` callables; the third one is the `hook` of a clone of the schema made in the middle of
+        the history (a `to_filterable_hook` instance on the schema's dispatcher that did not exist before)"""
+
+        fixed = {0: d0.register, 1: d1.register, 3: d2.register}
+
+        def __getitem__(self, m):
+            return bound_schema().hook if m == 2 else self.fixed[m]
+
+    machines = Machines()
     fns = [make_hook(h, n, calls) for h, n in enumerate(hist["names"])]
     decos = []
     outs = []
@@ -255,7 +336,8 @@ def run_impl(world: World, hist, e2e=False):
                     outs.append("ok")
                 elif k == "applyHook":
                     _, disp, h, n = op
-                    d1.apply(fns[h], name=n)(test_func)  # always lands on the TEST dispatcher of `test_func`
+                    # always lands on the TEST dispatcher of `test_func`; `name=None` means "the function's own name"
+                    d1.apply(fns[h], name=None if (n == fns[h].__name__ and h % 2 == 0) else n)(test_func)
                     outs.append("ok")
                 elif k == "unregister":
                     _, disp, h = op
@@ -280,12 +362,14 @@ def run_impl(world: World, hist, e2e=False):
             else:
                 attr.append({"same_as": ident.setdefault(id(fs), h), "fs": world.fs_content(fs)})
         hooks = [{n: [f._verif_id for f in lst] for n, lst in sorted(d._hooks.items()) if lst} for d in disps]
-        applied, per_disp = {}, {}
+        applied, per_disp, draw = {}, {}, {}
+        names = hist["names"]
         with global_dispatcher(d0):
             for t in TARGETS:
-                rows, prow = [], []
+                rows, prow, drow = [], [], []
                 for operation in world.operations:
                     ctx = HookContext(operation)
+                    del calls[:]
                     if t == "case":
                         saved = schema.__dict__.get("get_case_strategy")
                         schema.get_case_strategy = lambda *a, **kw: RecStrategy()
@@ -296,51 +380,110 @@ def run_impl(world: World, hist, e2e=False):
                                 del schema.__dict__["get_case_strategy"]
                             else:
                                 schema.get_case_strategy = saved
+                        obs = exec_log(r.log, calls, list(calls), names)
                         prow.append(None)
                     else:
                         r = sh.apply_to_all_dispatchers(operation, ctx, d2, RecStrategy(), t)
-                        prow.append([[[a, hook_of(f)] for a, f in d.apply_to_container(RecStrategy(), t, ctx).log]
-                                     for d in disps])
-                    rows.append([[a, hook_of(f)] for a, f in r.log])
+                        obs = exec_log(r.log, calls, list(calls), names)
+                        per = []
+                        for d in disps:
+                            del calls[:]
+                            rr = d.apply_to_container(RecStrategy(), t, ctx)
+                            per.append(exec_log(rr.log, calls, list(calls), names)["applied"])
+                        prow.append(per)
+                    rows.append(obs["applied"])
+                    drow.append(obs["draw"])
                 applied[t] = rows
                 per_disp[t] = prow
+                draw[t] = drow
             dispatch = {}
             for n in DISPATCH_NAMES:
                 per = []
                 for d in disps:
-                    def call(ctx):
+                    def call(ctx, o):
                         del calls[:]
                         if n == UNFILTERABLE:
                             d.dispatch(n, ctx, "/a", {})
                         else:
                             d.dispatch(n, ctx, [])
-                        return list(calls)
-                    per.append({"none": call(HookContext()), "ops": [call(HookContext(o)) for o in world.operations]})
+                        # a hook run with another context than the one dispatched is shown as such
+                        return [h if c == o else [h, "context", c] for h, c, _ in calls]
+                    per.append({"none": call(HookContext(), None),
+                                "ops": [call(HookContext(op_), o) for o, op_ in enumerate(world.operations)]})
                 dispatch[n] = per
+            # `BaseSchema.dispatch_hook`: all three scopes, through the schema bound to the test function
+            dispatch_all = {}
+            for n in DISPATCH_NAMES:
+                def call_all(ctx, o):
+                    del calls[:]
+                    if n == UNFILTERABLE:
+                        bound_schema().dispatch_hook(n, ctx, "/a", {})
+                    else:
+                        bound_schema().dispatch_hook(n, ctx, [])
+                    return [h if c == o else [h, "context", c] for h, c, _ in calls]
+                dispatch_all[n] = {"none": call_all(HookContext(), None),
+                                   "ops": [call_all(HookContext(op_), o) for o, op_ in enumerate(world.operations)]}
             generated = None
             if e2e:
-                generated = [sorted(set(draw_one(world, o, d2, calls))) for o in range(len(OPS))]
-        return {"outs": outs, "attr": attr, "hooks": hooks, "applied": applied, "per_disp": per_disp,
-                "dispatch": dispatch, "generated": generated}
+                generated = [draw_one(world, o, test_func, d2, calls, via_create_test=(e2e == "create_test"))
+                             for o in range(len(OPS))]
+        return {"outs": outs, "attr": attr, "hooks": hooks, "applied": applied, "per_disp": per_disp, "draw": draw,
+                "dispatch": dispatch, "dispatch_all": dispatch_all, "generated": generated}
     finally:
         schema.hooks, schema.hook = old_hooks, old_hook
 
 
-def draw_one(world, o, d2, calls):
-    """build the real strategy of operation `o` and draw one case: the hooks that ran"""
-    from hypothesis import HealthCheck, Phase, given, settings
+E2E_SETTINGS = None
+
+
+def e2e_settings():
+    global E2E_SETTINGS
+    if E2E_SETTINGS is None:
+        from hypothesis import HealthCheck, Phase, settings
+
+        E2E_SETTINGS = settings(max_examples=1, database=None, derandomize=True, deadline=None, phases=[Phase.generate],
+                                suppress_health_check=list(HealthCheck))
+    return E2E_SETTINGS
+
+
+def draw_one(world, o, test_func, d2, calls, via_create_test=False):
+    """build the REAL strategy of operation `o` (openapi `get_case_strategy`, every container, then `_apply_hooks`),
+    let Hypothesis draw one case: the hook calls made, as [hook, operation of the context].
+    `via_create_test`: through `create_test`, which finds the test's dispatcher on the test function itself."""
+    from hypothesis import given
 
     del calls[:]
-    strategy = world.operations[o].as_strategy(hooks=d2)
+    try:
+        _draw_one(world, o, test_func, d2, via_create_test)
+        ran = [[h, c] for h, c, _ in calls]
+    except Exception as e:  # judged by the caller: a consequence of a wrongly built pipeline, or an infrastructure problem
+        ran = [[h, c] for h, c, _ in calls] + [[f"raised:{type(e).__name__}: {str(e)[:200]}", o]]
+    del calls[:]
+    return ran
 
-    @given(case=strategy)
-    @settings(max_examples=1, database=None, derandomize=True, deadline=None, phases=[Phase.generate],
-              suppress_health_check=list(HealthCheck))
-    def test(case):
-        pass
 
-    test()
-    return list(calls)
+def _draw_one(world, o, test_func, d2, via_create_test):
+    from hypothesis import given
+
+    if via_create_test:
+        from schemathesis.generation import GenerationMode
+        from schemathesis.generation.hypothesis.builder import HypothesisTestConfig, HypothesisTestMode, create_test
+
+        generation = world.schema.generation_config
+        generation = type(generation)(modes=[GenerationMode.POSITIVE])
+        test = create_test(operation=world.operations[o], test_func=test_func,
+                           config=HypothesisTestConfig(generation=generation, modes=[HypothesisTestMode.FUZZING],
+                                                       settings=e2e_settings()))
+        test()
+    else:
+        strategy = world.operations[o].as_strategy(hooks=d2)
+
+        @given(case=strategy)
+        @e2e_settings()
+        def test(case):
+            pass
+
+        test()
 
 
 # ---- model side ----------------------------------------------------------------------------------------------------
@@ -371,7 +514,15 @@ def canon_model(m, hist):
     for t, rows in zip(TARGETS, m["applied"]):
         per_disp[t] = [None if t == "case" else [[[a, h] for d, a, h in row if d == k] for k in range(3)] for row in rows]
     dispatch = {n: per for n, per in zip(DISPATCH_NAMES, m["dispatch"])}
-    return {"outs": m["outs"], "attr": attr, "hooks": hooks, "applied": applied, "per_disp": per_disp, "dispatch": dispatch}
+    # the closures of the loops resolved (`stagesOf`) must list what `applyAll` / `applyAllCase` list
+    for t, rows, srows in zip(TARGETS, m["applied"], m["stages"]):
+        for o, (row, srow) in enumerate(zip(rows, srows)):
+            if [[d, a, h, o] for d, a, h in row] != srow:
+                raise InfraError(f"model: stagesOf differs from applyAll for {t} op {o} on {hist}")
+    draw = {t: rows for t, rows in zip(TARGETS, m["draw"])}
+    dispatch_all = {n: per for n, per in zip(DISPATCH_NAMES, m["dispatch_all"])}
+    return {"outs": m["outs"], "attr": attr, "hooks": hooks, "applied": applied, "per_disp": per_disp, "draw": draw,
+            "dispatch": dispatch, "dispatch_all": dispatch_all}
 
 
 # ---- independent Python reading of a history (the specification, second opinion) -----------------------------------
@@ -458,6 +609,28 @@ def norm_fs(fs):
     return None if fs is None else {"inc": sorted(fs["inc"]), "exc": sorted(fs["exc"])}
 
 
+def same_calls(got, want):
+    """the same hooks called the same number of times — or all of them k times over, when Hypothesis had to draw the
+    example k times (order across containers is not part of the property)"""
+    from collections import Counter
+
+    g, w = Counter(map(str, got)), Counter(map(str, want))
+    if g == w:
+        return True
+    if not w or set(g) != set(w):
+        return False
+    k, r = divmod(sum(g.values()), sum(w.values()))
+    return r == 0 and k > 1 and all(g[x] == k * w[x] for x in w)
+
+
+def e2e_mode(idx, e2e_every):
+    """which histories get a real Hypothesis draw per operation, alternately through `as_strategy(hooks=…)` and
+    through `create_test` (which looks the test's dispatcher up on the test function)"""
+    if not e2e_every or idx % e2e_every:
+        return False
+    return "create_test" if (idx // e2e_every) % 2 else "as_strategy"
+
+
 def judge(chk, world, hists, mechanism, v25, v26, e2e_every=0):
     drv = chk.driver()
     models = drv.batch([model_req(h, v25, v26) for h in hists])
@@ -465,8 +638,7 @@ def judge(chk, world, hists, mechanism, v25, v26, e2e_every=0):
     for idx, (hist, m) in enumerate(zip(hists, models)):
         if isinstance(m, dict) and "__err__" in m:
             raise InfraError(f"model error {m} on {hist}")
-        do_e2e = bool(e2e_every) and idx % e2e_every == 0
-        impl = run_impl(world, hist, e2e=do_e2e)
+        impl = run_impl(world, hist, e2e=e2e_mode(idx, e2e_every))
         mod = canon_model(m, hist)
         kinds = {op[0] for op in hist["ops"]}
         registered = sum(1 for a in impl["attr"] if a is not None)
@@ -480,7 +652,7 @@ def judge(chk, world, hists, mechanism, v25, v26, e2e_every=0):
             if isinstance(o, str) and o != "ok":
                 chk.feature(f"out:{o.split(':')[0]}")
         # ---- correspondence (model in the variant the tree exhibits)
-        for part in ("outs", "attr", "hooks", "applied", "per_disp", "dispatch"):
+        for part in ("outs", "attr", "hooks", "applied", "per_disp", "draw", "dispatch", "dispatch_all"):
             if impl[part] != mod[part]:
                 chk.disagreement(mechanism, {"part": part, "history": hist}, mod[part], impl[part])
                 break
@@ -530,6 +702,7 @@ def judge(chk, world, hists, mechanism, v25, v26, e2e_every=0):
                                f"decorator expression are {want}; operations treated wrongly: {wrong_ops}",
                           {"kind": "hist", "history": hist, "hook": h, "impl_filter": got, "spec_filter": want})
         # where hooks are applied, judged against the hook's ACTUAL filter set (tests _should_skip_hook & co. alone)
+        pipeline_bad = set()
         for t in TARGETS:
             for o in range(len(OPS)):
                 want = []
@@ -538,7 +711,53 @@ def judge(chk, world, hists, mechanism, v25, v26, e2e_every=0):
                         for h in impl["hooks"][d].get(f"{a}_{t}", []):
                             if py_matches(impl_filter[h], o):
                                 want.append([a, h])
+                # the Lean reading of the property (reference machine) and this Python reading must agree
+                if impl_filter == spec_filter and impl["hooks"] == spec_hooks:
+                    lean_want = [[a, h] for _, a, h, c in m["spec_stages"][TARGETS.index(t)][o]]
+                    if lean_want != want or any(c != o for _, _, _, c in m["spec_stages"][TARGETS.index(t)][o]):
+                        raise InfraError(f"specStages vs Python oracle differ on {hist} target {t} op {o}: "
+                                         f"{m['spec_stages'][TARGETS.index(t)][o]} vs {want}")
                 got = impl["applied"][t][o]
+                explained26 = False
+                if got != want and t == "case":
+                    unfiltered = [[a, h] for d in range(3) for a in ACTIONS for h in impl["hooks"][d].get(f"{a}_case", [])]
+                    explained26 = v26 == "asFound" and got == unfiltered
+                # draw time: every stage calls the hook it was made for, with the context of THIS operation, on the
+                # value the previous stage produced
+                if not explained26:
+                    vals, want_build, want_calls = [], [], []
+                    for a, h in want:
+                        if a == "before_generate":
+                            want_build.append([a, h, o])
+                        else:
+                            want_calls.append([a, h, o, list(vals)])
+                            if a in ("map", "flatmap"):
+                                vals.append(h)
+                    got_d = impl["draw"][t][o]
+                    if got_d != {"build": want_build, "calls": want_calls, "value": vals}:
+                        pipeline_bad.add(o)
+                        site = "_apply_hooks" if t == "case" else "apply_to_container"
+                        if got_d["build"] != want_build:
+                            kind, shape = "before_generate", "hooks-called-while-building-differ-from-own-filters"
+                        else:
+                            gc, wc = got_d["calls"], want_calls
+                            i = next((i for i, (g, w) in enumerate(zip(gc, wc)) if g != w), min(len(gc), len(wc)))
+                            g = gc[i] if i < len(gc) else None
+                            w = wc[i] if i < len(wc) else None
+                            kind = (w or g or ["?"])[0]
+                            if g and w and g[:2] == w[:2] and g[2] != w[2]:
+                                shape = "hook-called-with-the-context-of-another-operation"
+                            elif g and w and g[:3] == w[:3]:
+                                shape = "hook-receives-a-value-not-produced-by-the-previous-stage"
+                            else:
+                                shape = "hook-called-at-draw-time-differs-from-own-filters"
+                        chk.violation(f"C19:{site}:{kind}_{t}:{shape}",
+                                      f"strategy of {OPS[o]} ({t} hooks): building called {got_d['build']}, drawing called "
+                                      f"[kind, hook, operation of the context, value received] {got_d['calls']} and gave "
+                                      f"{got_d['value']}; the registered hooks whose own filter admits the operation require "
+                                      f"{want_build}, {want_calls} and {vals}",
+                                      {"kind": "hist", "history": hist, "target": t, "op": o, "impl": got_d,
+                                       "spec": {"build": want_build, "calls": want_calls, "value": vals}})
                 if got == want:
                     continue
                 if t == "case":
@@ -563,11 +782,25 @@ def judge(chk, world, hists, mechanism, v25, v26, e2e_every=0):
                         chk.violation("C19:dispatch:ran-set-differs-from-filters", f"dispatch({n}) on {OPS[o]} ran "
                                       f"{impl['dispatch'][n][d]['ops'][o]}, filters admit {want}",
                                       {"kind": "hist", "history": hist, "name": n, "disp": d, "op": o})
+        for n in DISPATCH_NAMES:
+            regs = [impl["hooks"][d].get(n, []) for d in range(3)]
+            got = impl["dispatch_all"][n]
+            if got["none"] != [h for reg in regs for h in reg]:
+                chk.violation("C19:dispatch_hook:hook-skipped-without-operation", f"dispatch_hook({n}) without operation ran "
+                              f"{got['none']}; registered per scope: {regs}", {"kind": "hist", "history": hist, "name": n})
+            for o in range(len(OPS)):
+                want = [h for reg in regs for h in reg if py_matches(impl_filter[h], o)]
+                if got["ops"][o] != want:
+                    chk.violation("C19:dispatch_hook:ran-set-differs-from-filters", f"dispatch_hook({n}) on {OPS[o]} ran "
+                                  f"{got['ops'][o]}; GLOBAL, schema and test hooks whose own filter admits it: {want}",
+                                  {"kind": "hist", "history": hist, "name": n, "op": o, "impl": got["ops"][o], "spec": want})
         # real generation: the hooks that actually ran while one case of each operation was built and drawn
         if impl["generated"] is not None:
             chk.feature("e2e:real-strategy-draws", len(OPS))
             for o in range(len(OPS)):
-                want, want26 = set(), set()
+                # one call per registration whose hook's own filter admits the operation (a hook registered twice is
+                # called twice), every one with the context of this operation
+                want, want26 = [], []
                 for d in range(3):
                     for n, lst in impl["hooks"][d].items():
                         a = next((a for a in ACTIONS if n.startswith(a + "_")), None)
@@ -578,19 +811,30 @@ def judge(chk, world, hists, mechanism, v25, v26, e2e_every=0):
                             continue  # no body strategy for GET
                         for h in lst:
                             if py_matches(impl_filter[h], o):
-                                want.add(h)
-                                want26.add(h)
+                                want.append(h)
+                                want26.append(h)
                             elif c == "case":
-                                want26.add(h)
-                got = set(impl["generated"][o])
+                                want26.append(h)
+                raised = [h for h, _ in impl["generated"][o] if isinstance(h, str)]
+                if raised and o not in pipeline_bad:
+                    raise InfraError(f"drawing a real case of {OPS[o]} raised although the recorded pipeline is as the "
+                                     f"property requires: {raised} on {hist}")
+                got = [h for h, _ in impl["generated"][o]]
                 chk.case(f"{mechanism}:generated", key=[hist, o], nontrivial=bool(want26))
-                if got == want:
+                foreign = sorted({(h, c) for h, c in impl["generated"][o] if c != o}, key=str)
+                if foreign:
+                    chk.violation("C19:generation:hook-called-with-the-context-of-another-operation",
+                                  f"while a case of {OPS[o]} was generated, [hook, operation of its context]: {foreign}",
+                                  {"kind": "hist", "history": hist, "op": o, "impl": impl["generated"][o],
+                                   "e2e": e2e_mode(idx, e2e_every)})
+                if same_calls(got, want):
                     continue
-                explained = v26 == "asFound" and got == want26
+                explained = v26 == "asFound" and same_calls(got, want26)
                 chk.violation(KF_CASE if explained else "C19:generation:hooks-run-differ-from-own-filters",
-                              f"hooks that ran while a case of {OPS[o]} was generated: {sorted(got)}; hooks whose own "
-                              f"filter admits the operation: {sorted(want)}",
-                              {"kind": "hist", "history": hist, "op": o, "impl": sorted(got), "spec": sorted(want), "e2e": True})
+                              f"hooks that ran while a case of {OPS[o]} was generated: {sorted(got, key=str)}; one call per "
+                              f"registered hook whose own filter admits the operation: {sorted(want)}",
+                              {"kind": "hist", "history": hist, "op": o, "impl": sorted(got, key=str), "spec": sorted(want),
+                               "e2e": e2e_mode(idx, e2e_every)})
     return models
 
 
@@ -687,6 +931,69 @@ def random_history(rng, max_len=12):
     if not any(op[0] in ("registerFn", "decorate") for op in ops):
         h = rng.randrange(n_hooks)
         ops.insert(rng.randrange(len(ops) + 1), ["registerFn", rng.choice(machines), h, names[h]])
+    return {"ops": ops, "names": names}
+
+
+PIPE_FILTERS = [None, (True, 0), (False, 0), (True, 2)]  # unfiltered, apply_to(path=/a), skip_for(path=/a), apply_to(name=GET /b)
+
+
+def pipeline_exhaustive(max_len, targets, machines=(1,), same_kind_len=0):
+    """every sequence of ≤ max_len registrations (kind of hook × own filter) for ONE target on one `register`:
+    several hooks in the same application loop, matching and not matching, in every order; plus, up to
+    `same_kind_len`, the sequences whose hooks are all of one kind"""
+    regs = [(a, f) for a in ACTIONS for f in PIPE_FILTERS]
+    for t in targets:
+        for m in machines:
+            seqs = [seq for n in range(1, max_len + 1) for seq in itertools.product(regs, repeat=n)]
+            for n in range(max_len + 1, same_kind_len + 1):
+                for a in ACTIONS:
+                    seqs += [tuple((a, f) for f in fs) for fs in itertools.product(PIPE_FILTERS, repeat=n)]
+            for seq in seqs:
+                ops, names = [], []
+                for a, f in seq:
+                    names.append(f"{a}_{t}")
+                    if f is not None:
+                        ops.append(["regApply", m, f[0], f[1]])
+                    ops.append(["registerFn", m, len(names) - 1, names[-1]])
+                yield {"ops": ops, "names": names}
+
+
+def pipeline_history(rng, one_target=True):
+    """2–6 hooks for ONE target (or, `one_target=False`, each for any of the six targets: every call site of
+    `apply_hooks` in `openapi_cases`), of one, two or all four kinds, spread over 1–3 of the 4 `register` callables
+    (3 scopes), most with their own apply_to/skip_for chain, in function form, by-name form or through
+    `HookDispatcher.apply`"""
+    t = rng.choice(["case", "case", "query", "body"])
+    acts = rng.sample(ACTIONS, rng.choice([1, 1, 2, 4]))
+    n_hooks = rng.randrange(2, 7)
+    if one_target:
+        names = [f"{rng.choice(acts)}_{t}" for _ in range(n_hooks)]
+    else:
+        names = [f"{rng.choice(ACTIONS)}_{rng.choice(CONTAINERS + ['case'])}" for _ in range(n_hooks)]
+    machines = rng.sample(range(4), rng.choice([1, 1, 2, 3]))
+    filters = rng.sample(range(len(FILTERS)), 3)
+    ops, ndeco, registered = [], 0, []
+    order = list(range(n_hooks))
+    rng.shuffle(order)
+    for h in order:
+        m = rng.choice(machines)
+        chain = [[rng.random() < 0.65, f] for f in rng.sample(filters, rng.choice([0, 1, 1, 2]))]
+        form = rng.random()
+        if form < 0.6:
+            ops += [["regApply", m, i, f] for i, f in chain]
+            ops.append(["registerFn", m, h, names[h]])
+        elif form < 0.9:
+            k = rng.randrange(len(chain) + 1)
+            ops += [["regApply", m, i, f] for i, f in chain[:k]]
+            ops.append(["registerName", m, names[h]])
+            ops += [["decoApply", ndeco, i, f] for i, f in chain[k:]]
+            ops.append(["decorate", ndeco, h])
+            ndeco += 1
+        else:
+            ops.append(["applyHook", 2, h, names[h]])
+        registered.append(h)
+        if rng.random() < 0.08:
+            ops.append(["unregister", rng.randrange(3), rng.choice(registered)])
     return {"ops": ops, "names": names}
 
 
@@ -1061,16 +1368,28 @@ def run(chk):
         "registerFn_scope, decorate_scope, unregister_exact, unregisterAll_exact, unregister_applied, fn_hook_applied_iff",
         "auth_own_filter (ALL auth histories), auth_provider_filter, auth_provider_gets, auth_set_first_match, auth_set_none, "
         "setOnCase_scope",
+        "closure level — pipeline_is_spec (every state: the stages built with partial(hook, context) call exactly the "
+        "prescribed hook functions with the context of the operation), pipeline_after_history, strategy_after_history "
+        "(every history, every behaviour of the user's hooks), specStages_mem, draw_calls_exact, draw_calls_where (calls made "
+        "while a value is drawn, any choice sequence), probe_draw_value (data flow), case_pipeline_asFound",
+        "late_binding_applies_skipped_hook, late_binding_drops_earlier_hook (binding by value is necessary), "
+        "late_binding_single_hook_same (why one hook per loop cannot show it)",
+        "dispatch_all_scopes, dispatch_all_no_operation, dispatch_all_order (BaseSchema.dispatch_hook)",
     ]
     chk.partial += [
-        "machines are created up front (4: GLOBAL.register, schema.hooks.register, schema.hook, test.register); "
-        "dispatcher creation by schema.clone()/parametrize during a history is not modelled",
+        "machines are created up front in the model (4: GLOBAL.register, schema.hooks.register, <clone>.hook, test.register); "
+        "the harness creates the third one in the middle of the history through schema.clone(test_function=…), which the "
+        "model treats as existing from the start (its state is untouched until first use)",
+        "Hypothesis' filter/map/flatmap are read as the state-and-failure monad of lean/SV/Model/C19Pipeline.lean (trusted; "
+        "validated by real draws)",
         "`HookDispatcher._validate_hook` (unknown name, wrong scope, wrong arity) is outside the model",
         "GraphQL's use of apply_to_all_dispatchers is covered only through the shared function",
     ]
     chk.sampled_only += [
-        "that Hypothesis really runs the map/filter/flatmap hooks recorded on the strategy: checked by drawing one real "
-        "case per operation for a sample of histories (mechanism *:generated)",
+        "that Hypothesis really runs the callables put on the strategy, and the call sites of apply_hooks in "
+        "specs/openapi/_hypothesis.py (all six targets, context, test dispatcher handed down by as_strategy / create_test): "
+        "one real case drawn per operation for a sample of histories and for every all-targets history (mechanism "
+        "*:generated: multiset of hook calls and the operation of every context)",
         "matcher semantics of Filter.match (regex, tag, operation_id, function matchers): 8 filters × 4 operations",
     ]
     # 1. witnesses and corpus first
@@ -1087,7 +1406,22 @@ def run(chk):
     n = chk.budget(4000, 30000)
     hists = [random_history(rng) for _ in range(n)]
     judge(chk, world, hists, "random", v25, v26, e2e_every=chk.budget(60, 60))
-    # 5. auth storages
+    # 5. the application loops as closure-building code: several hooks in the same loop, executed the way Hypothesis does
+    if chk.thorough:
+        pe = list(pipeline_exhaustive(3, ["case", "query"], machines=(1,), same_kind_len=4)) + \
+             list(pipeline_exhaustive(2, ["body", "case"], machines=(0, 3)))
+    else:
+        pe = list(pipeline_exhaustive(2, ["case", "query"], same_kind_len=3))
+    judge(chk, world, pe, "pipeline-exhaustive", v25, v26, e2e_every=chk.budget(40, 100))
+    chk.notes.append(f"pipeline-exhaustive: {len(pe)} registration sequences (4 kinds × own filter in "
+                     f"{{none, apply_to /a, skip_for /a, apply_to GET /b}}) for one target on one register callable")
+    judge(chk, world, [pipeline_history(rng) for _ in range(chk.budget(1500, 12000))], "pipeline-random", v25, v26,
+          e2e_every=chk.budget(10, 20))
+    # 6. every call site of the hooks in `openapi_cases`: hooks for all six targets, one REAL case drawn per operation for
+    #    every history (alternately through `as_strategy(hooks=…)` and `create_test`)
+    judge(chk, world, [pipeline_history(rng, one_target=False) for _ in range(chk.budget(400, 4000))], "all-targets", v25,
+          v26, e2e_every=1)
+    # 7. auth storages
     auth_corr(chk, world, chk.budget(3000, 30000))
     chk.exhaustive = False
 
@@ -1101,10 +1435,11 @@ def replay(chk, data):
     if r.get("kind") == "hist" or "history" in r or "history" in (r.get("input") or {}):
         hist = r.get("history") or r["input"]["history"]
         print("history:", json.dumps(hist))
-        impl = run_impl(world, hist, e2e=bool(r.get("e2e")))
-        print("impl now:", json.dumps({k: impl[k] for k in ("outs", "attr", "hooks", "applied", "generated")}))
+        impl = run_impl(world, hist, e2e=r.get("e2e") or False)
+        print("impl now:", json.dumps({k: impl[k] for k in ("outs", "attr", "hooks", "applied", "draw", "generated")}))
         m = chk.driver().one(*model_req(hist, v25, v26))
-        print("model:", json.dumps({k: canon_model(m, hist)[k] for k in ("outs", "attr", "hooks", "applied")}))
+        print("model:", json.dumps({k: canon_model(m, hist)[k] for k in ("outs", "attr", "hooks", "applied", "draw")}))
+        print("spec stages [scope, kind, hook, operation of the context] per target, operation:", json.dumps(m["spec_stages"]))
         print("spec filters:", json.dumps(m["spec_filter"]), "spec outs:", json.dumps(m["spec_outs"]))
         print("python reading:", json.dumps(py_spec(hist)[0]), json.dumps(py_spec(hist)[2]))
     elif r.get("kind") == "auth" or "ops" in (r.get("input") or {}) and "names" not in (r.get("input") or {}):
